@@ -468,4 +468,104 @@ def bbsRead (_busy nameMatches : Bool) (entry : String) (env : ReadEnv) : ReadOu
     if nameCheckUnconditional then (if !nameMatches then .invalidBid else runEntry entry env)
     else .unmodelled "BBoardID.ToRaw: name comparison under an unknown condition"
 
+/-! ## accounts: who the caller is (ptt.InitCurrentUser) and who moderates a board (cache.ParseBMList) -/
+
+/-- types.CcharTolower -/
+def foldCase (c : Nat) : Nat := if 65 ≤ c ∧ c ≤ 90 then c + 32 else c
+/-- types.Cstrcasecmp(a, b) == 0 -/
+def caseEq (a b : List Nat) : Bool := (cstr a).map foldCase == (cstr b).map foldCase
+/-- types.Cstrcmp(a, b) == 0 -/
+def cstrEq (a b : List Nat) : Bool := cstr a == cstr b
+
+/-- the user-id index in shared memory: uid ↦ id.  (That the index answers like this table is property C04.) -/
+abbrev UserTable := List (Int × List Nat)
+
+def uidValid (u : Int) : Bool := 1 ≤ u && u ≤ (MAX_USERS : Int)
+
+/-- cache.SearchUserRaw: 0 = nobody; the comparison ignores letter case -/
+def searchUser (tbl : UserTable) (name : List Nat) : Int :=
+  if name.headD 0 = 0 then 0 else
+  match tbl.find? (fun e => caseEq name e.2) with
+  | some e => e.1
+  | none => 0
+
+def idOf (tbl : UserTable) (uid : Int) : Option (List Nat) :=
+  match tbl.find? (fun e => e.1 == uid) with
+  | some e => some e.2
+  | none => none
+
+def isalpha (c : Nat) : Bool := (65 ≤ c && c ≤ 90) || (97 ≤ c && c ≤ 122)
+
+/-- bbs.UUserID.ToRaw: the text is copied into a 13-byte array; UserID_t.IsValid -/
+def toRawUserID (spelling : List Nat) : List Nat := spelling.take 13
+def userIDValid (raw : List Nat) : Bool :=
+  let n := (cstr raw).length
+  2 ≤ n && n ≤ 12 && isalpha (raw.headD 0) && (cstr raw).all isalnum
+
+inductive Loaded where
+  | ok (uid : Int) (id : List Nat) (u : UserView)
+  | noUser                       -- empty id / nobody of that name
+  | unmodelled (what : String)
+  deriving DecidableEq, Repr, Inhabited
+
+/-- the special-casing of the built-in accounts, interpreted from the regenerated list: `subject` says whose id is
+compared (the LOADED record's, or the one the caller SUPPLIED) -/
+def applySpecials (supplied recId : List Nat) : List (String × List Nat × String) → W → Except String W
+  | [], lv => .ok lv
+  | (subject, bytes, action) :: rest, lv =>
+    let who : Option (List Nat) :=
+      if subject = "loaded" then some recId else if subject = "supplied" then some supplied else none
+    match who with
+    | none => .error ("InitCurrentUser compares " ++ subject)
+    | some x =>
+      if cstrEq x bytes then
+        (if action = "pwcuInitGuestPerm" then applySpecials supplied recId rest 0#32
+         else if action = "pwcuInitAdminPerm" then applySpecials supplied recId rest (w Gen.ReadEntryPoints.adminPerm)
+         else .error ("InitCurrentUser applies " ++ action))
+      else applySpecials supplied recId rest lv
+
+/-- ptt.InitCurrentUser(supplied): cmbbs.PasswdLoadUser (case-insensitive lookup, then the record of that uid), then
+the special-casing `specials`.  `stored` = UserLevel and Over18 of the record that gets loaded. -/
+def initCurrentUserWith (specials : List (String × List Nat × String)) (tbl : UserTable) (storedLevel : W) (storedOver18 : Bool)
+    (supplied : List Nat) : Loaded :=
+  if supplied.headD 0 = 0 then .noUser else
+  let uid := searchUser tbl supplied
+  if !uidValid uid then .noUser else
+  match idOf tbl uid with
+  | none => .noUser
+  | some recId =>
+    match applySpecials supplied recId specials storedLevel with
+    | .ok lv => .ok uid recId { level := lv, over18 := storedOver18, uid := uid }
+    | .error e => .unmodelled e
+
+/-- … with the special-casing the source has (regenerated) -/
+def initCurrentUser (tbl : UserTable) (storedLevel : W) (storedOver18 : Bool) (supplied : List Nat) : Loaded :=
+  initCurrentUserWith Gen.ReadEntryPoints.initCurrentUserSpecial tbl storedLevel storedOver18 supplied
+
+/-- the loop of cache.ParseBMList over the '/'-separated names: each copied into a 13-byte id, looked up; only valid
+uids count, only the first MAX_BMs of them -/
+def parseLoop (tbl : UserTable) : List (List Nat) → List Int → List Int
+  | [], acc => acc
+  | n :: ns, acc =>
+    if acc.length ≥ MAX_BMs then acc else
+    let uid := searchUser tbl (n.take 13)
+    if uidValid uid then parseLoop tbl ns (acc ++ [uid]) else parseLoop tbl ns acc
+
+/-- cache.ParseBMList: a FRESH array of MAX_BMs slots, -1 = none -/
+def parseBMList (tbl : UserTable) (bm : List Nat) : List Int :=
+  let found := parseLoop tbl (Spec.splitSlash (cstr bm)) []
+  found ++ List.replicate (MAX_BMs - found.length) (-1)
+
+/-- the moderator cache of the boards: bid ↦ slots.  cache.buildBMCache(bid) replaces the entry of THAT board by the
+parse of ITS moderator string. -/
+abbrev BMCacheSt := List (Int × List Int)
+
+def buildBMCache (tbl : UserTable) (st : BMCacheSt) (bid : Int) (bm : List Nat) : BMCacheSt :=
+  (bid, parseBMList tbl bm) :: st.filter (fun e => e.1 != bid)
+
+def bmCacheOf (st : BMCacheSt) (bid : Int) : List Int :=
+  match st.find? (fun e => e.1 == bid) with
+  | some e => e.2
+  | none => List.replicate MAX_BMs (-1)
+
 end PttVerif.C07
